@@ -238,14 +238,15 @@ class Run:
                         finally:
                             self.leave(w, k)
                 except RecursionError:
-                    # the wait-for graph has a cycle through this edge: effective_priority() /
-                    # propagate_priority() recurse without end and acquire() raises from inside its try
-                    # block.  That is what the library does on a lock-order cycle of PriorityTasks; the
+                    # the wait-for graph has a cycle through this edge, or the chain from the lock's owner
+                    # leads into one (a bystander): effective_priority() / propagate_priority() recurse
+                    # without end and acquire() raises from inside its try block.  That is what the library does on a lock-order cycle of PriorityTasks; the
                     # model's event for it is `acquireFails` (no net change).
                     if cyc and self.lines[at] == f"ev acquire {k}" and "obs" not in self.lines[at:]:
                         self.lines[at] = f"ev acquirefails {k}"
                         self.cycle_failed.add(w)
-                        self.tags.add("acquire-raises-on-lock-order-cycle")
+                        self.tags.add("acquire-raises-on-lock-order-cycle" if cyc == 1 else
+                                      "bystander-acquire-raises-while-cycle-exists")
                     raise
                 except UserPriorityError:
                     # a user-written priority() raised while acquire() computed the waiter's key or told
@@ -303,16 +304,22 @@ class Run:
                 self.giveups += 1
 
     def closes_cycle(self, w, k):
-        """would worker w, by waiting for lock k, close a cycle of the harness's wait-for graph?"""
-        h, hops = self.holder.get(k), 0
-        while h is not None and hops < 20:
+        """would worker w, by waiting for lock k, close a cycle of the harness's wait-for graph, or does
+        the chain holder(k) -> lock it waits for -> its holder -> ... run into a cycle that exists already
+        (possibly a transient one, through a cancelled waiter that has not run yet)?  In both cases the
+        priority recursion started by this acquire() does not end."""
+        h, seen = self.holder.get(k), set()
+        while h is not None:
             if h == w:
-                return True
+                return 1
+            if h in seen:
+                return 2
+            seen.add(h)
             kk = self.waiting.get(h)
             if kk is None:
-                return False
-            h, hops = self.holder.get(kk), hops + 1
-        return False
+                return 0
+            h = self.holder.get(kk)
+        return 0
 
     def lock_view(self, k):
         lock = self.locks[k]
@@ -1219,6 +1226,12 @@ def gen_cycle_case(rng):
     n0 = len(ws)
     env = [[n0, "set", first], [n0 + 1, "set", second], [n0 + rng.randint(1, 4), "set", 2]]
     if rng.random() < 0.3:
+        # the first of the two is cancelled in the instant in which the second one is let go and the
+        # bystanders arrive: the cycle is transient, a bystander's acquire can run into it
+        wi = ws.index(W1 if first == 0 else W2)
+        env = [[n0, "set", first]] + rng.sample([[n0 + 1, "set", second], [n0 + 1, "set", 2],
+                                                  [n0 + 1, "cancel", wi]], 3)
+    elif rng.random() < 0.3:
         env.append([n0 + rng.randint(1, 6), "cancel", rng.randrange(len(ws))])
     env.sort(key=lambda a: a[0])
     return {"loop": loop, "nlocks": 2, "nevents": 3, "workers": ws, "env": env}
